@@ -326,12 +326,27 @@ def _c17_nontrivial(sess, real):
     # or a visibility case in which one request resolves the renderer and another does not
     for op, out in zip(sess[1:], real[1:]):
         f, o = op.split(), out.split()
-        if f and f[0] == "R" and len(o) == 5:
+        if f and f[0] == "R" and len(o) == 7:
             if o[4] == "enc-error" or (o[3] != "-" and o[0] != "200"):
                 return True
         if f and f[0] == "V" and "unresolved@" in out and ";" in out:
             return True
     return False
+
+def _c17_stats(inner):
+    """generic stats + measured counts of the wire-served requests; an op line that the executor does
+    not parse is a generator bug and must not pass silently as `bad-op` == `bad-op`"""
+    def f(lines, sessions, R, M):
+        if any(r == "bad-op" for r in R):
+            import sys
+            raise sys.modules["__main__"].Broken("C17: the generator emitted an op line the executor does not parse")
+        st = inner(lines, sessions, R, M)
+        st["wire_served"] = sum(1 for r in R if r.endswith(("wire=ok", "wire=bad")))
+        st["multibyte_plaintext_wire_served"] = sum(
+            1 for l, r in zip(lines, R) if l.startswith("R txt ") and not r.endswith("wire=-")
+            and any(int(l.split()[4][i:i + 2], 16) >= 0x80 for i in range(0, len(l.split()[4]) - 1, 2) if l.split()[4] != "-"))
+        return st
+    return f
 
 PROPS["C17"] = {
     "technique": "Lean 4 theorems over a model of render.go on top of the C13 writer machine (all statuses, options, payloads, "
@@ -348,11 +363,11 @@ PROPS["C17"] = {
                   "status codes 100..999; Before hooks do not touch Content-Type.",
     "props_modules": ["Flamego.Props.C17"],
     "suite": "C17",
-    "stats": generic_stats(_c17_nontrivial,
+    "stats": _c17_stats(generic_stats(_c17_nontrivial,
         "sessions = one Flame instance with Renderer(opts) for a method/charset/indent combination, each op one request "
         "(render call with status, pre-written state and payload) or one visibility case (two routes, three requests); "
         "distinct by op text; non-trivial = some render call produced a non-empty body under a status other than 200 or hit "
-        "an encoder error, or a visibility case had both a resolved and an unresolved request"),
+        "an encoder error, or a visibility case had both a resolved and an unresolved request")),
     "known_match": no_known,
     "trusted_base": COMMON_TRUST + [
         "parameters, not verified: encoding/json and encoding/xml (their output for a value and indentation arrives as data; "
